@@ -2,7 +2,7 @@
 import os
 
 from harness import gen, impl, refspec
-from harness.common import Driver, Run, hx, sandbox
+from harness.common import Blob, Driver, Run, hx, sandbox
 from harness.props import creation as cr
 
 RULE = ("trees / single files with align=True through TorrentFile and `create --align`; sizes "
@@ -18,12 +18,14 @@ def run_case(run, drv, files, pl, single, via_cli, tag):
         root, name = cr.materialize(box, files, single)
         out = os.path.join(box, "o.torrent")
         try:
+            spelled, prog = cr.variant(run.rng, root, single)
+            case["progress"], case["spelled"] = prog, spelled.replace(box, "$BOX")
             if via_cli:
-                impl.cli(["create", "--align", "--piece-length", str(pl), "--prog", "0",
-                          "-o", out, root])
+                impl.cli(["create", "--align", "--piece-length", str(pl), "--prog", str(prog),
+                          "-o", out, spelled])
                 raw = open(out, "rb").read()
             else:
-                raw = impl.create("v1", root, out, piece_length=pl, align=True)
+                raw = impl.create("v1", spelled, out, piece_length=pl, align=True, progress=prog)
         except Exception as exc:
             run.fail("impl-vs-spec", case, {"raised": repr(exc)})
             return
@@ -48,6 +50,40 @@ def run_case(run, drv, files, pl, single, via_cli, tag):
                       "cli" if via_cli else "lib"])
 
 
+def auto_piece_length(run):
+    """align with the automatically chosen piece length: the recorded piece length must be
+    the one the padding entries and the pieces were made with (sparse files: a payload of at
+    most 1000 pieces whose padded stream has more, and the reverse)."""
+    for sizes in ([333 * 16384 + 100] * 3, [16384 * 1000 - 5, 7], [20000, 0, 50000]):
+        with sandbox("c15a") as box:
+            root = os.path.join(box, "payload")
+            os.makedirs(root)
+            files = []
+            for i, size in enumerate(sizes):
+                with open(os.path.join(root, f"f{i}"), "wb") as fd:
+                    fd.truncate(size)
+                files.append((f"f{i}", Blob.zero(size)))
+            for via_cli in (False, True):
+                out = os.path.join(box, "o.torrent")
+                case = {"auto_piece_length": True, "sizes": sizes, "via_cli": via_cli}
+                try:
+                    if via_cli:
+                        impl.cli(["create", "--align", "--prog", "0", "-o", out, root])
+                        raw = open(out, "rb").read()
+                    else:
+                        raw = impl.create("v1", root, out, align=True)
+                except Exception as exc:
+                    run.fail("impl-vs-spec", case, {"raised": repr(exc)})
+                    continue
+                meta = impl.decode(raw)
+                pl = meta[b"info"].get(b"piece length")
+                why = cr.check_align_view(meta, files, pl, False, "payload") if isinstance(pl, int) \
+                    and pl >= 16384 else "piece length"
+                if why:
+                    run.fail("impl-vs-spec", case, {"why": why, "recorded piece length": pl})
+                run.case(["auto", sizes, via_cli], True, sample=case, classes=["auto-pl"])
+
+
 def run(tier, seed, replay=None):
     run = Run("C15", tier, seed, RULE)
     drv = Driver()
@@ -63,6 +99,8 @@ def run(tier, seed, replay=None):
         for _ in range(120 if tier == "quick" else 1200):
             files, pl, single = cr.make_case(run.rng, tier, single_p=0.2)
             run_case(run, drv, files, pl, single, run.rng.random() < 0.3, "random")
+    if not replay:
+        auto_piece_length(run)
     for (case, pieces, entries), _, out in cr.settle_createfull(run, drv.run()):
         run.model_checked += 1
         parts = out.split(" ")
